@@ -62,11 +62,13 @@ func c09Init() {
 		// the label older tools write ("X509 CERTIFICATE"; "TRUSTED CERTIFICATE" is another); the library
 		// stores the DER of whatever PEM block it is given
 		"certA-PEM-other-label": pem.EncodeToMemory(&pem.Block{Type: "X509 CERTIFICATE", Bytes: ca.Raw}),
-		"certB-DER":             cb.Raw, "certC-DER": cc.Raw,
+		// a bundle (leaf followed by another certificate and a trailing comment): the first block counts
+		"certA-PEM-bundle": append(append(pem.EncodeToMemory(&pem.Block{Type: "CERTIFICATE", Bytes: ca.Raw}), pem.EncodeToMemory(&pem.Block{Type: "CERTIFICATE", Bytes: cb.Raw})...), []byte("# end of bundle\n")...),
+		"certB-DER":        cb.Raw, "certC-DER": cc.Raw,
 	}
 	c09Types = []c09Type{
 		{"SHA256", signature.CERT_SHA256_GUID, []string{"h1", "h2", "h31", "certA-DER"}},
-		{"X509", signature.CERT_X509_GUID, []string{"certA-DER", "certA-PEM", "certA-PEM-with-preamble", "certA-PEM-other-label", "certB-DER", "certC-DER", "h1"}},
+		{"X509", signature.CERT_X509_GUID, []string{"certA-DER", "certA-PEM", "certA-PEM-with-preamble", "certA-PEM-other-label", "certA-PEM-bundle", "certB-DER", "certC-DER", "h1"}},
 		{"SHA1", signature.CERT_SHA1_GUID, []string{"s20", "h1"}},
 		{"UNKNOWN", util.EFIGUID{Data1: 0xdeadbeef, Data2: 1, Data3: 2, Data4: [8]byte{3, 4, 5, 6, 7, 8, 9, 10}}, []string{"h1"}},
 	}
@@ -122,6 +124,9 @@ func c09Ops() []c09Op {
 		c09Op{name: "AppendList(SHA256 list built by AppendBytes h1, h1, h2)", kind: "appendlist", ltyp: s, lst: []string{"O1:h1", "O1:h1", "O2:h2"}},
 		c09Op{name: "AppendList(X509 list built by AppendBytes certA-PEM)", kind: "appendlist", ltyp: x, lst: []string{"O2:certA-PEM"}},
 		c09Op{name: "AppendList(X509 list built by AppendBytes certB-DER, certA-PEM)", kind: "appendlist", ltyp: x, lst: []string{"O1:certB-DER", "O2:certA-PEM"}},
+		// a list of a type the decoder does not handle, built by hand the way the specification lays it
+		// out, with a signature header: valid, and the database must keep encoding to a well-formed stream
+		c09Op{name: "AppendList(hand-built RSA2048 list with a 4-byte signature header, one entry)", kind: "appendlist", ltyp: nil},
 		c09Op{name: "AppendDatabase(db with X509[certB-DER] and SHA256[h2])", kind: "appenddb"},
 		c09Op{name: "encode-decode", kind: "encdec"},
 	)
@@ -241,6 +246,11 @@ func c09Apply(db *signature.SignatureDatabase, op c09Op) c09Res {
 	case "remove":
 		return c09Res{err: db.Remove(op.t.g, c09Own[op.own].g, c09Data[op.data])}
 	case "appendlist":
+		if op.ltyp == nil {
+			db.AppendList(&signature.SignatureList{SignatureType: signature.CERT_RSA2048_GUID, HeaderSize: 4, SignatureHeader: []byte{0xd1, 0xd2, 0xd3, 0xd4}, Size: 16 + 256, ListSize: 28 + 4 + 16 + 256,
+				Signatures: []signature.SignatureData{{Owner: c09Own[0].g, Data: fill(256, 0x3b)}}})
+			return c09Res{}
+		}
 		l, _ := c09BuildList(op.ltyp, op.lst)
 		db.AppendList(l)
 		return c09Res{}
